@@ -272,4 +272,123 @@ theorem RN.nearest {z r f : ℚ} (h : RN z r) (hf : Rep f) : |r - z| ≤ |f - z|
   · have hp := two_zpow_pos (tq z)
     linarith [not_lt.mp hclose]
 
+/-! ## the two classical lemmas -/
+
+/-- **the rounding error of a sum of two representable numbers is representable** -/
+theorem err_rep {u v s : ℚ} (hu : Rep u) (hv : Rep v) (hs : RN (u + v) s) : Rep (u + v - s) := by
+  by_cases hu0 : u = 0
+  · subst hu0; rw [zero_add] at hs ⊢; rw [hv.rn_eq hs]; simpa using Rep.zero
+  by_cases hv0 : v = 0
+  · subst hv0; rw [add_zero] at hs ⊢; rw [hu.rn_eq hs]; simpa using Rep.zero
+  by_cases hz : u + v = 0
+  · rw [hz] at hs ⊢; rw [hs.zero_iff]; simpa using Rep.zero
+  obtain ⟨hsg, _⟩ := hs.spec hz
+  -- a = the finer of the two grids; the coarser operand is also on it
+  have key : ∀ a b : ℚ, Rep a → Rep b → a ≠ 0 → |a| ≤ |b| → ∀ s', RN (a + b) s' → a + b ≠ 0 → Rep (a + b - s') := by
+    intro a b ha hb ha0 hab s' hs' hz'
+    obtain ⟨hsg', _⟩ := hs'.spec hz'
+    have hga : OnGrid (tq a) a := ha.onGrid_tq ha0
+    have hgb : OnGrid (tq a) b := hb.onGrid_tq_of_le ha0 hab
+    by_cases hc : tq (a + b) ≤ tq a
+    · -- the sum is on its own grid, hence exact
+      have : Rep (a + b) := Rep.of_grid ((hga.add hgb).coarsen hc) (tq_ge _) (le_of_lt (abs_lt_tq hz'))
+      rw [this.rn_eq hs']; simpa using Rep.zero
+    · have hgs : OnGrid (tq a) s' := hsg'.coarsen (by omega)
+      refine Rep.of_grid ((hga.add hgb).sub hgs) (tq_ge _) ?_
+      have hn := hs'.nearest hb
+      rw [show b - (a + b) = -a by ring, abs_neg, abs_sub_comm] at hn
+      exact le_trans hn (le_of_lt (abs_lt_tq ha0))
+  rcases le_total |u| |v| with h | h
+  · exact key u v hu hv hu0 h s hs hz
+  · have := key v u hv hu hv0 h s (by rwa [add_comm]) (by rwa [add_comm])
+    rwa [add_comm] at this
+
+/-- monotonicity against a representable bound -/
+theorem RN.le_of_le_rep {z r f : ℚ} (h : RN z r) (hf : Rep f) (hle : z ≤ f) : r ≤ f :=
+  IsRN.mono (by norm_num) h hf.rn hle
+theorem RN.ge_of_ge_rep {z r f : ℚ} (h : RN z r) (hf : Rep f) (hle : f ≤ z) : f ≤ r :=
+  IsRN.mono (by norm_num) hf.rn h hle
+
+theorem Rep.two_mul {x : ℚ} (h : Rep x) : Rep (2 * x) := by
+  obtain ⟨g, s, hg, hs, rfl⟩ := h
+  exact ⟨g, s + 1, hg, by omega, by rw [two_zpow_split]; norm_num; ring⟩
+
+/-- half of a representable number of magnitude `≥ 2^(−1074+53)` is representable -/
+theorem Rep.half {x : ℚ} (h : Rep x) (hx : (2:ℚ) ^ (-1074 + 53 : ℤ) ≤ |x|) : Rep (x / 2) := by
+  obtain ⟨g, s, hg, hs, rfl⟩ := h
+  have hs1 : -1074 < s := by
+    by_contra hc
+    have : s = -1074 := by omega
+    subst this
+    have hp := two_zpow_pos (-1074)
+    rw [abs_mul, abs_of_pos hp, two_zpow_split] at hx
+    have hgq : |(g:ℚ)| < (2:ℚ) ^ (53:ℤ) := by
+      rw [← Int.cast_abs]
+      have e : (2:ℚ) ^ (53:ℤ) = ((2 ^ 53 : ℤ) : ℚ) := by norm_num
+      rw [e]; exact_mod_cast hg
+    have := mul_lt_mul_of_pos_right hgq hp
+    rw [mul_comm ((2:ℚ) ^ (-1074:ℤ))] at hx
+    linarith
+  refine ⟨g, s - 1, hg, by omega, ?_⟩
+  have := two_zpow_split (s - 1) 1
+  rw [show s - 1 + 1 = s by ring] at this
+  rw [this]; norm_num; ring
+
+/-- **Fast2Sum step**: if `|y| ≤ |x|` then `RN(x + y) − x` is representable -/
+theorem fts_rep {x y r : ℚ} (hx : Rep x) (hy : Rep y) (hxy : |y| ≤ |x|) (hr : RN (x + y) r) : Rep (r - x) := by
+  -- reduce to x > 0
+  have pos : ∀ x y r : ℚ, Rep x → Rep y → |y| ≤ |x| → RN (x + y) r → 0 < x → Rep (r - x) := by
+    intro x y r hx hy hxy hr hxpos
+    have hx0 : x ≠ 0 := hxpos.ne'
+    rw [abs_of_pos hxpos] at hxy
+    have hyb := abs_le.mp hxy
+    by_cases hex : Rep (x + y)
+    · rw [hex.rn_eq hr]; simpa using hy
+    have hz : x + y ≠ 0 := fun e => hex (by rw [e]; exact Rep.zero)
+    have hy0 : y ≠ 0 := fun e => hex (by rw [e, add_zero]; exact hx)
+    have hgx : OnGrid (tq y) x := hx.onGrid_tq_of_le hy0 (by rw [abs_of_pos hxpos]; exact hxy)
+    have hgy : OnGrid (tq y) y := hy.onGrid_tq hy0
+    -- y > −x/2, otherwise the sum is exact (Sterbenz)
+    have hyhalf : -(x / 2) < y := by
+      by_contra hc
+      have hc' : y ≤ -(x / 2) := not_lt.mp hc
+      apply hex
+      refine Rep.of_grid (hgx.add hgy) (tq_ge _) ?_
+      have : |x + y| ≤ |y| := by
+        rw [abs_of_nonneg (by linarith), abs_of_nonpos (by linarith)]; linarith
+      exact le_trans this (le_of_lt (abs_lt_tq hy0))
+    have hrrep := hr.rep
+    have hr2 : r ≤ 2 * x := hr.le_of_le_rep hx.two_mul (by linarith)
+    by_cases hrx : x ≤ r
+    · -- r ≥ x: grid of x, |r − x| ≤ x
+      have hr0 : r ≠ 0 := by linarith
+      have hgr : OnGrid (tq x) r := hrrep.onGrid_tq_of_le hx0 (by rw [abs_of_pos hxpos, abs_of_pos (by linarith)]; exact hrx)
+      refine Rep.of_grid (hgr.sub (hx.onGrid_tq hx0)) (tq_ge _) ?_
+      rw [abs_of_nonneg (by linarith)]
+      have := abs_lt_tq hx0; rw [abs_of_pos hxpos] at this; linarith
+    · have hrx' : r < x := not_le.mp hrx
+      have hr0' : 0 ≤ r := IsRN.nonneg hr (by linarith)
+      by_cases hsmall : x < (2:ℚ) ^ (-1074 + 53 : ℤ)
+      · -- everything on the minimal grid
+        refine Rep.of_grid (hrrep.onGridMin.sub hx.onGridMin) (le_refl _) ?_
+        rw [abs_of_nonpos (by linarith)]; linarith
+      · have hxh : Rep (x / 2) := hx.half (by rw [abs_of_pos hxpos]; exact not_lt.mp hsmall)
+        have hrh : x / 2 ≤ r := hr.ge_of_ge_rep hxh (by linarith)
+        have hrpos : 0 < r := by linarith
+        have hr0 : r ≠ 0 := hrpos.ne'
+        have hgxr : OnGrid (tq r) x := hx.onGrid_tq_of_le hr0 (by rw [abs_of_pos hxpos, abs_of_pos hrpos]; linarith)
+        refine Rep.of_grid ((hrrep.onGrid_tq hr0).sub hgxr) (tq_ge _) ?_
+        rw [abs_of_nonpos (by linarith)]
+        have := abs_lt_tq hr0; rw [abs_of_pos hrpos] at this; linarith
+  rcases lt_trichotomy x 0 with hneg | h0 | hpos
+  · have := pos (-x) (-y) (-r) hx.neg hy.neg (by rwa [abs_neg, abs_neg]) (by
+      have := hr.neg; rwa [neg_add] at this) (by linarith)
+    have e : -r - -x = -(r - x) := by ring
+    rw [e] at this; exact Rep.neg_iff.mp this
+  · subst h0
+    have : y = 0 := by simpa using hxy
+    subst this
+    rw [add_zero] at hr; rw [hr.zero_iff]; simpa using Rep.zero
+  · exact pos x y r hx hy hxy hr hpos
+
 end GeoVerif
